@@ -65,11 +65,19 @@ NAMES = ['A', 'B', 'sub/C', 'D']
 KINDS = ['command', 'build_step', 'alias', 'copy']
 
 
-def render(script):
-    """script: tuple of (name, kind, deps) sorted by NAMES order"""
+BROKEN = ("command('zz_broken', cmd=['echo'], extra_deps=[object_file('zz_obj', "
+          "file='zz.c')])")
+
+
+def render(script, broken_at=None):
+    """script: tuple of (name, kind, deps) sorted by NAMES order; broken_at=k inserts, before
+    the k-th project, a step the msbuild backend cannot emit (the run fails part-way through
+    rule emission)"""
     lines = ["project('proj')"]
     var = {}
-    for name, kind, deps in script:
+    for idx, (name, kind, deps) in enumerate(script):
+        if broken_at == idx:
+            lines.append(BROKEN)
         v = 'p_' + re.sub(r'\W', '_', name)
         var[name] = v
         d = '[' + ', '.join(var[x] for x in deps) + ']'
@@ -82,6 +90,8 @@ def render(script):
             lines.append("%s = alias(%r, %s)" % (v, name, d))
         elif kind == 'copy':
             lines.append("%s = copy_file(%r, extra_deps=%s)" % (v, 'f_' + name.replace('/', '_') + '.txt', d))
+    if broken_at is not None and broken_at >= len(script):
+        lines.append(BROKEN)
     return '\n'.join(lines) + '\n'
 
 
@@ -249,15 +259,21 @@ def _hist_shard(arg):
     prev = {}
     trace = []
     first = True
+    open(os.path.join(src, 'zz.c'), 'w').close()
     for op, script, how in hist:
+        failing = op.startswith('fail@')
         with open(os.path.join(src, 'build.bfg'), 'w') as f:
-            f.write(render(script))
+            f.write(render(script, int(op[5:]) if failing else None))
         if first or how == 'configure':
             r = bfg.configure(src, bld, 'msbuild', env)
         else:
             r = bfg.regenerate(bld, env, inproc=True)
         first = False
         trace.append('%s/%s' % (op, how))
+        if failing:
+            if r.rc == 0:
+                raise core.HarnessError('the broken step did not make the run fail')
+            continue
         if r.rc != 0:
             viol.append(('run-failed', list(trace), r.err[-400:], hist))
             break
@@ -297,7 +313,7 @@ def run(ctx):
     init = ()
     # canonical state = (script, names known to .bfg_uuid); the uuid values themselves are
     # random but futures depend only on which names are mapped
-    start = (init, frozenset())
+    start = (init, frozenset(), None)
     seen_states = {start: []}
     frontier = [start]
     histories = []
@@ -305,9 +321,13 @@ def run(ctx):
     for dpt in range(depth):
         nxt = []
         for st in frontier:
-            script, known = st
+            script, known, after_fail = st
             hist = seen_states[st]
             succ = successors(script) + [('keep', script)]
+            if hist and after_fail is None:
+                # a run that fails part-way through rule emission leaves the script (and what a
+                # user expects of the GUIDs) unchanged
+                succ += [('fail@%d' % k, script) for k in range(len(script) + 1)]
             for op, s2 in succ:
                 for how in ('configure', 'regenerate'):
                     if not hist and how == 'regenerate':
@@ -316,7 +336,10 @@ def run(ctx):
                     h2 = hist + [(op, s2, how)]
                     histories.append(h2)
                     known2 = frozenset(project_name(n, k) for n, k, d in s2)
-                    st2 = (s2, known2)
+                    # a failed run is a state of its own: what it left behind in .bfg_uuid is
+                    # only observable through the NEXT successful run
+                    st2 = (s2, known if op.startswith('fail@') else known2,
+                           op if op.startswith('fail@') else None)
                     if st2 not in seen_states:
                         seen_states[st2] = h2
                         nxt.append(st2)
